@@ -3,6 +3,7 @@
    waitForConnection's critical section, the wait on the sequence's channel or the caller's context, the command
    function under the retry helper, the io.EOF re-loop) and the command monitor of ConnProps.v. *)
 From FMP Require Import Base.Bytes Base.Lts Model.Connection Model.ConnProps Model.ConnCfg Proofs.ConnProofs Proofs.ConnCfgProofs.
+From FMP Require Import Model.Paths Proofs.PathProofs.
 Open Scope Z_scope.
 
 (* on every trace, under every schedule: a command function runs only once a client has been published by a Finalize
@@ -34,6 +35,11 @@ Example ex_run : exists ls st, run (cstep (mkCcfg true true true true true true 
    (cinit (mkCopts false true false) [DFail] [] [new_cmd 1 false true [XEofDisc]]) ls = Some st /\ (length ls >= 30)%nat.
 Proof. exact conn_example. Qed.
 
+(* on every path through the function body as it is in the source now (regenerated into Generated.body_census, enumerated by Model/Paths.v) of Connection.DoCommand: the command is attempted only after waitForConnection returned in the same round; a fire-now marker is applied before waiting *)
+Theorem C15_source_docommand_paths : docommand_paths = true.
+Proof. exact paths_docommand. Qed.
+
 Print Assumptions C15_commands.
 Print Assumptions C15_outcome_functional.
 Print Assumptions C15_generated_ok.
+Print Assumptions C15_source_docommand_paths.
